@@ -79,12 +79,13 @@ def check_grouped(ctx: Ctx):
             single = gname == "single"
             want_cls = "MatchedInstancePair" if single else pair_cls
             ctx.decide("R12.4", f, node, construct_ + ":pair-class", f"pipeline input is a {want_cls}", pair.cls.name == want_cls, {"got": pair.cls.name})
-            want_thr = 0.0 if (single and pair_cls != "MatchedInstancePair") else Sym("CFG_decision_threshold")
+            cfgv = ev.attrs["_tag_cfg"]
+            want_thr = 0.0 if (single and pair_cls != "MatchedInstancePair") else cfgv["decision_threshold"]
             ctx.decide("R12.4", f, node, construct_ + ":threshold", "decision threshold is 0 exactly for re-wrapped single-instance groups", kw.get("decision_threshold") == want_thr, {"got": repr(kw.get("decision_threshold")), "want": repr(want_thr)})
             for cfg in CFG:
                 if cfg == "decision_threshold":
                     continue
-                ctx.decide("R12.5", f, node, construct_ + ":cfg:" + cfg, f"pipeline parameter {cfg} receives the evaluator's {cfg}", kw.get(cfg) == Sym("CFG_" + cfg), {"got": repr(kw.get(cfg))}, nontrivial=False)
+                ctx.decide("R12.5", f, node, construct_ + ":cfg:" + cfg, f"pipeline parameter {cfg} receives the evaluator's {cfg}", kw.get(cfg) is cfgv[cfg] or (not isinstance(cfgv[cfg], list) and kw.get(cfg) == cfgv[cfg]), {"got": repr(kw.get(cfg))}, nontrivial=False)
         bad = [(n, b) for (n, b, idx, v, fresh) in it.root.stores if not fresh]
         ctx.decide("R12.2", f, f.node, base + ":no-mutation", "no in-place store reaches the caller's arrays", not bad, {"stores": [norm(n) for n, _ in bad][:4]})
         # R12.1 undefined labels
